@@ -79,6 +79,13 @@ def tier(rule, rt):
 def reference(policy, env):
     from rbacx.core.policy import _is_strict, evaluate, match_actions, match_resource
 
+    if "policies" in policy:             # a policy set: the reference evaluation of the set itself
+        from rbacx.core.policyset import decide as decide_set
+
+        out = decide_set(policy, env)
+        return {"decision": out["decision"], "rule_id": out.get("last_rule_id") or out.get("rule_id"),
+                "obligations": out.get("obligations"), "reason": out.get("reason"), "policy_id": out.get("policy_id")}, []
+
     res = env.get("resource") or {}
     rt = None if res.get("type") is None else str(res.get("type"))
     strict = True if _is_strict(env) else None
@@ -117,7 +124,29 @@ def gen_cases(chk):
     cases.append({"fam": "dup", "policy": {"algorithm": "first-applicable", "rules": [r0, pool[7], r0]}})
     cases.append({"fam": "dup", "policy": {"algorithm": "Deny-Overrides",
                                            "rules": [{"id": "x", "effect": "deny", "actions": ["read", "read", "*"], "resource": {"type": "doc"}}, pool[3]]}})
-    out = []
+    # policy sets: "for a policy set it [the engine's decision] equals the reference evaluation of the set"
+    set_cases = []
+    n_sets = 250 if chk.tier == "quick" else 3000
+    for k in range(n_sets):
+        kids = []
+        for j in range(rng.choice([1, 2, 2, 3])):
+            rs = [dict(rng.choice(pool), id="c%d_%s_%d" % (j, "r", i)) for i in range(rng.choice([1, 2, 3]))]
+            kid = {"id": "kid%d" % j, "rules": rs}
+            a = rng.choice(polgen.ALGOS + [None])
+            if a:
+                kid["algorithm"] = a
+            if rng.random() < 0.2:
+                kid = {"id": "inner%d" % j, "algorithm": rng.choice(polgen.ALGOS), "policies": [kid]}
+            kids.append(kid)
+        ps = {"policies": kids}
+        a = rng.choice(polgen.ALGOS + [None])
+        if a:
+            ps["algorithm"] = a
+        for ri, res in enumerate(REQS):
+            if (ri + k) % 2:
+                continue
+            set_cases.append({"fam": "set", "policy": ps, "resource": res, "strict": bool(k % 2)})
+    out = list(set_cases)
     for c in cases:
         # rules must be distinct objects with distinct ids
         pol = {"algorithm": c["policy"]["algorithm"],
@@ -201,7 +230,7 @@ def _run_impl(cases):
                 # ... and on a Guard that was created with another policy and then given this one by set_policy();
                 # every 3rd case with policies that json.dumps cannot serialise (a datetime literal in a rule that
                 # never matches), as Python-built policies may be
-                if hist is None:
+                if hist is None and "policies" not in c["policy"]:
                     import datetime as _dt
                     inert = [{"id": "zz_dt", "effect": "deny", "actions": ["purge"], "resource": {"type": "doc"},
                               "condition": {"after": [_dt.datetime(2999, 1, 1, tzinfo=_dt.timezone.utc), {"attr": "context.now"}]}}] \
@@ -227,7 +256,7 @@ def _run_impl(cases):
             extra = [{"id": "zz_a", "effect": "deny", "actions": ["purge"], "resource": {"type": r["type"] if isinstance(r["type"], str) else "doc"}},
                      {"id": "zz_t", "effect": "deny", "actions": ["read"], "resource": {"type": "nomatch-type", "id": r["id"]}},
                      {"id": "zz_i", "effect": "permit", "actions": ["*"], "resource": {"type": "*", "id": "no-such-id"}}]
-            for pos in range(len(c["policy"]["rules"]) + 1):
+            for pos in range(len(c["policy"].get("rules") or []) + 1 if "policies" not in c["policy"] else 0):
                 ex = extra[pos % 3]
                 pol2 = {"algorithm": c["policy"]["algorithm"],
                         "rules": c["policy"]["rules"][:pos] + [ex] + c["policy"]["rules"][pos:]}
